@@ -66,6 +66,9 @@ pub fn shards(tier: &str) -> Vec<String> {
             }
         }
     }
+    // operations, drops and collections on one manager from inside a session of another manager (the calling
+    // thread's allocator state belongs to the other store): depth-4 histories with the reference-count audit
+    v.extend(crate::hist::shards_for(&["bdd"], &["n32c16t1x"], 1).into_iter().map(|s| format!("hist:{s}")));
     // loom model of the apply-cache bucket lock (code derived from /repo's source text)
     v.extend(super::loomx::spinlock_shards());
     for s in ["m1", "m2"] {
@@ -78,6 +81,10 @@ pub fn shards(tier: &str) -> Vec<String> {
 pub fn run(ctx: &mut Ctx) {
     if ctx.shard.starts_with("loom:") {
         return super::loomx::run_spinlock(ctx);
+    }
+    if let Some(rest) = ctx.shard.clone().strip_prefix("hist:") {
+        ctx.shard = rest.to_string();
+        return crate::hist::run_shard(ctx, crate::hist::Prop::C05, 4);
     }
     sched::install_hooks();
     let shard = ctx.shard.clone();
